@@ -66,38 +66,14 @@ def r_io_chain(model, rep):
 # C01 specifics
 # ---------------------------------------------------------------------------------------------------------
 def collects_all(cx, S, term, attr):
-    """``term`` denotes the collection { child.<attr> : child in all children of self }: a comprehension over
-    self.variants.values() (or over self / self.variants with child = self.variants[id]) without condition, or a local filled by
-    .add/.append(child.<attr>) in an unconditional loop over all children"""
-    vals = ("call", ("attr", ("attr", S, "variants"), "values"), (), ())
-    all_ids = (S, ("attr", S, "variants"), ("call", ("attr", ("attr", S, "variants"), "keys"), (), ()),
-               ("call", ("global", "sorted"), (S,), ()), ("call", ("global", "sorted"), (("attr", S, "variants"),), ()),
-               ("call", ("global", "sorted"), (("call", ("attr", ("attr", S, "variants"), "keys"), (), ()),), ()))
-
-    def child_attr(x, it, var):
-        """x == <child>.<attr> where child is drawn from ``it`` through variable ``var``"""
-        if x[0] != "attr" or x[2] != attr:
-            return False
-        c = x[1]
-        if it == vals or (it[0] == "call" and it[1] == ("global", "six.itervalues") and it[2] == (("attr", S, "variants"),)):
-            return c == var
-        if it in all_ids:
-            return c in (("sub", ("attr", S, "variants"), var), ("sub", S, var))
-        return False
-    u = T.unwrap(term)
-    for x in T.walk(u):
-        if x[0] == "comp" and len(x[3]) == 1 and not x[3][0][2] and len(x[3][0][0]) == 2 \
-                and child_attr(x[2], x[3][0][1], ("bound", x[3][0][0][1])):
+    """``term`` denotes the collection { child.<attr> : child in all children of self }: one unconditional generator over the
+    ids of self.variants (or of self), child = self.variants[id] -- a comprehension or a local filled by .add/.append in a loop"""
+    all_ids = (S, ("attr", S, "variants"))
+    all_ids = all_ids + tuple(("call", ("global", w), (x,), ()) for w in ("sorted", "list") for x in all_ids)
+    for c in facts.collections_of(cx, term):
+        if len(c.gens) == 1 and not c.conds and c.its[0] in all_ids \
+                and c.elt in (("attr", ("sub", ("attr", S, "variants"), c.els[0]), attr), ("attr", ("sub", S, c.els[0]), attr)):
             return True
-    if term[0] == "local":
-        adds = [ev for ev in cx.events if ev.kind == "call" and ev.value[1][0] == "attr" and ev.value[1][2] in ("add", "append")
-                and ev.value[1][1][0] == "local" and T.same_local(ev.value[1][1], term)]
-        if len(adds) == 1 and adds[0].loops and not T.guard_tests(adds[0]) and len(adds[0].value[2]) == 1:
-            it = adds[0].loops[-1][1]
-            el = ("elem", it, adds[0].loops[-1][0])
-            lids = set(l[0] for l in adds[0].loops)
-            cut = [ev for ev in cx.events if ev.kind in ("break", "continue", "return") and set(l[0] for l in ev.loops) & lids]
-            return child_attr(adds[0].value[2][0], it, el) and not cut
     return False
 
 
@@ -122,7 +98,8 @@ def r_variant_tree(model, rep):
                 msg = "the 'variants' key must be present exactly when there are children"
     rep.ob("R-VARIANT-TREE", "Variant.serialize:child-id-list", ok, site=cx.site(f.node), msg="" if ok else msg)
     # children are written into the same flat mapping as the parent
-    sers = [ev for ev in cx.events if ev.kind == "call" and ev.value[1][0] == "attr" and ev.value[1][2] == "serialize" and ev.value[1][1][0] == "elem"]
+    sers = [ev for ev in cx.events if ev.kind == "call" and ev.value[1][0] == "attr" and ev.value[1][2] == "serialize" and ev.loops
+            and T.contains(ev.value[1][1], lambda x: x[0] == "elem")]
     ok = bool(sers) and sers[0].value[2] == (P(cx.params[1]),)
     rep.ob("R-VARIANT-TREE", "Variant.serialize:children-in-flat-mapping", ok, site=cx.site(f.node),
            msg="" if ok else "child variants must be serialised into the same UID-keyed mapping as their parent")
@@ -151,10 +128,12 @@ def r_variant_tree(model, rep):
         msg = "for each child: parent must be set to self before child.deserialize(full mapping, child uid), then self.add(child)"
         if ok:
             # the uid list: '%s-%s' % (self.uid, i) for i in sorted(data['variants']), when the key is present
-            alts = [T.unwrap(a) for a in (it[1] if it[0] == "phi" else (it,))]
-            want = ("comp", "list", ("binop", "%", ("const", "%s-%s"), ("tuple", (("attr", S, "uid"), ("bound", "i")))),
-                    ((("names", "i"), ("call", ("global", "sorted"), (("sub", dat, ("const", "variants")),), ()), ()),))
-            ok = want in alts
+            ok = False
+            for a in (it[1] if it[0] == "phi" else (it,)):
+                for c in facts.collections_of(cx, a):
+                    if c.kind == "list" and len(c.gens) == 1 and not c.conds and c.elt == T.fmt(("attr", S, "uid"), "-", c.els[0]) \
+                            and c.its[0] == ("call", ("global", "sorted"), (("sub", dat, ("const", "variants")),), ()):
+                        ok = True
             msg = "child UIDs are not built as '%s-%s' % (self.uid, id) for id in sorted(data['variants'])"
     rep.ob("R-VARIANT-TREE", "Variant.deserialize:children", ok, site=cx.site(f.node), msg="" if ok else msg)
     # paths and layered-product release are read from the variant's own entry
@@ -172,32 +151,26 @@ def r_variant_tree(model, rep):
     cx = facts.fctx(model, f)
     S = P(cx.selfname)
     sec = ("sub", P(cx.params[1]), ("attr", S, "_section"))
-    cadd = [ev for ev in cx.events if ev.kind == "call" and ev.value[1][0] == "attr" and ev.value[1][2] == "add" and ev.value[1][1][0] == "local"
-            and len(ev.loops) == 2]
-    ok, msg = len(cadd) == 1, "the set of child UIDs is not collected"
+    # the top-level entries are those whose UID is not '<uid of some entry>-<one of its children>'
+    app = [ev for ev in cx.events if ev.kind == "call" and ev.value[1][0] == "attr" and ev.value[1][2] == "append"
+           and facts.active_at(ev, V) and ev.loops]
+    ok, msg = len(app) == 1, "top-level variant selection changed"
     if ok:
-        ca = cadd[0]
-        outer = ca.loops[0][1]
-        var = ("elem", outer, ca.loops[0][0])
-        inner = ca.loops[1][1]
-        ok = outer == ("call", ("attr", sec, "values"), (), ()) \
-            and inner == ("call", ("attr", var, "get"), (("const", "variants"), ("list", ())), ()) \
-            and ca.value[2] == (("binop", "%", ("const", "%s-%s"), ("tuple", (("sub", var, ("const", "uid")), ("elem", inner, ca.loops[1][0])))),) \
-            and not T.guard_tests(ca)
-        msg = "child UIDs must be collected as '%s-%s' % (entry['uid'], child) over every entry's 'variants' list"
+        ng = facts.non_gate_guards(app[0])
+        uid = app[0].value[2][0]
+        ok = len(ng) == 1 and ng[0][1] and ng[0][0][0] == "cmp" and ng[0][0][1] == ("not in",) and ng[0][0][2][0] == uid \
+            and app[0].loops[-1][1] == sec and uid == ("elem", sec, app[0].loops[-1][0])
+        msg = "top-level variants must be exactly the entries whose UID is not a collected child UID"
         if ok:
-            cset = ca.value[1][1]
-            app = [ev for ev in cx.events if ev.kind == "call" and ev.value[1][0] == "attr" and ev.value[1][2] == "append"
-                   and facts.active_at(ev, V) and ev.loops]
-            ok = len(app) == 1
-            msg = "top-level variant selection changed"
-            if ok:
-                ng = facts.non_gate_guards(app[0])
-                uid = app[0].value[2][0]
-                ok = len(ng) == 1 and ng[0][1] and ng[0][0][0] == "cmp" and ng[0][0][1] == ("not in",) and ng[0][0][2][0] == uid \
-                    and ng[0][0][2][1][0] == "local" and T.same_local(ng[0][0][2][1], cset) \
-                    and app[0].loops[-1][1] == ("call", ("attr", sec, "items"), (), ()) and uid == ("idx", ("elem", app[0].loops[-1][1], app[0].loops[-1][0]), 0)
-                msg = "top-level variants must be exactly the entries whose UID is not a collected child UID"
+            cset = ng[0][0][2][1]
+            ok = False
+            msg = "child UIDs must be collected as '%s-%s' % (entry['uid'], child) over every entry's 'variants' list"
+            for c in facts.collections_of(cx, cset):
+                if len(c.gens) == 2 and not c.conds and c.its[0] == sec:
+                    var = ("sub", sec, c.els[0])
+                    if c.its[1] == ("call", ("attr", var, "get"), (("const", "variants"), ("list", ())), ()) \
+                            and c.elt == T.fmt(("sub", var, ("const", "uid")), "-", c.els[1]):
+                        ok = True
     rep.ob("R-VARIANT-TREE", "Variants.deserialize:top-level-detection", ok, site=cx.site(f.node), msg="" if ok else msg)
     adds = [ev for ev in cx.events if ev.kind == "call" and ev.value[1] == ("attr", S, "add") and ev.loops]
     ok = len(adds) == 1
@@ -539,12 +512,11 @@ def r_section_prefix(model, rep):
     f = model.own_method("treeinfo.Images", "serialize")
     cx, emits = facts.writer_emits(model, f)
     secs = [e for e in emits if e.kind == "section"]
-    ok = len(secs) == 1 and secs[0].path[0][0] == "binop" and secs[0].path[0][1] == "%" and secs[0].path[0][2][0] == "const"
+    ok = len(secs) == 1 and secs[0].path[0][0] == "fmt" and len(secs[0].path[0][1]) == 2 and secs[0].path[0][1][0][0] == "const" \
+        and secs[0].path[0][1][1][0] != "const"
     prefix = None
     if ok:
-        fmt = secs[0].path[0][2][1]
-        ok = fmt.endswith("%s") and fmt.count("%") == 1
-        prefix = fmt[:-2]
+        prefix = secs[0].path[0][1][0][1]
     rep.ob("R-SECTION-PREFIX", "treeinfo.Images.serialize:section-name", ok, site=cx.site(f.node),
            msg="" if ok else "image sections are not named '<prefix>%s' % platform")
     if not ok:
@@ -554,11 +526,13 @@ def r_section_prefix(model, rep):
     ok = len(sets) == 1 and len(sets[0].loops) == 2
     if ok:
         e = sets[0]
-        plat = ("elem", ("attr", S, "images"), e.loops[0][0])
-        it = ("call", ("attr", ("sub", ("attr", S, "images"), plat), "items"), (), ())
+        plat = ("elem", e.loops[0][1], e.loops[0][0])
+        cell = ("sub", ("attr", S, "images"), plat)
+        it = e.loops[1][1]
         el = ("elem", it, e.loops[1][0])
-        ok = e.loops[0][1] == ("attr", S, "images") and e.loops[1][1] == it and e.path == [("binop", "%", ("const", prefix + "%s"), plat), ("idx", el, 0)] \
-            and e.value == ("idx", el, 1)
+        whole = lambda x, d: x == d or (x[0] == "call" and x[1] in (("global", "sorted"), ("global", "list")) and x[2] == (d,))
+        ok = whole(e.loops[0][1], ("attr", S, "images")) and whole(it, cell) and e.path == [T.fmt(prefix, plat), el] \
+            and e.value == ("sub", cell, el)
         ng = facts.non_gate_guards(e.ev)
         ok = ok and all(not g[1] and g[0] == ("unary", "not", ("attr", S, "images")) for g in ng)
     rep.ob("R-SECTION-PREFIX", "treeinfo.Images.serialize:every-image", ok, site=cx.site(f.node),
@@ -607,10 +581,8 @@ def section_prefixes_of_property(model, qname, prop):
         if ev.kind == "return":
             alts = ev.value[1] if ev.value[0] == "phi" else (ev.value,)
             for a in alts:
-                if a[0] == "binop" and a[1] == "+" and a[2][0] == "const" and T.attr_chain(a[3]) == "%s.uid" % cx.selfname:
-                    out.add(a[2][1])
-                elif a[0] == "binop" and a[1] == "%" and a[2][0] == "const" and a[2][1].endswith("%s") and T.attr_chain(a[3]) == "%s.uid" % cx.selfname:
-                    out.add(a[2][1][:-2])
+                if a[0] == "fmt" and len(a[1]) == 2 and a[1][0][0] == "const" and T.attr_chain(a[1][1]) == "%s.uid" % cx.selfname:
+                    out.add(a[1][0][1])
                 else:
                     raise AnalysisError("%s.%s: unexpected section name shape %s" % (qname, prop, T.show(a)))
     reads = set()
@@ -662,10 +634,8 @@ def r_section_dep(model, rep):
                 sec = s[0][0]
                 alts = sec[1] if sec[0] == "phi" else (sec,)
                 for a in alts:
-                    if a[0] == "binop" and a[1] == "%" and a[2][0] == "const" and a[2][1].endswith("%s"):
-                        tried.add(a[2][1][:-2])
-                    elif a[0] == "binop" and a[1] == "+" and a[2][0] == "const":
-                        tried.add(a[2][1])
+                    if a[0] == "fmt" and len(a[1]) == 2 and a[1][0][0] == "const" and a[1][1][0] != "const":
+                        tried.add(a[1][0][1])
                     elif T.attr_chain(a) == "self._section":
                         tried.add("<_section>")
     ok2 = prefixes <= tried if "<_section>" not in tried else ok
@@ -684,9 +654,8 @@ def r_ti_variant_tree(model, rep):
     ok = len(w) == 1 and not w[0].guards
     if ok:
         v = w[0].value
-        ok = v[0] == "call" and v[1] == ("attr", ("const", ","), "join") and T.contains(v, lambda x: x[0] == "call" and x[1] == ("global", "sorted")) \
-            and T.contains(v, lambda x: x[0] == "comp" and x[2] == ("attr", ("bound", "i"), "uid")
-                           and x[3][0][1] == ("call", ("attr", ("attr", S, "variants"), "values"), (), ()) and not x[3][0][2])
+        ok = v[0] == "call" and v[1] == ("attr", ("const", ","), "join") and len(v[2]) == 1 \
+            and T.unwrap(v[2][0])[0] == "call" and T.unwrap(v[2][0])[1] == ("global", "sorted") and collects_all(cx, S, v[2][0], "uid")
     rep.ob("R-TI-VARIANT-TREE", "treeinfo.Variants.serialize:[tree]/variants", ok, site=cx.site(f.node),
            msg="" if ok else "[tree]/variants must be the sorted comma list of the uid of every top-level variant")
     g = model.own_method("treeinfo.Variants", "deserialize_1_0")
@@ -874,7 +843,7 @@ def r_discinfo_pos(model, rep):
         return out
     shapes = [sorted(T.show(T.unwrap(a)) for a in alts(p_)) for p_ in positions]
     want = [["str(self.timestamp).strip()"], ["self.description.strip()"], ["self.arch.strip()"],
-            sorted(["'ALL'", "','.join(list<str(i) for i in self.disc_numbers>)"])]
+            sorted(["'ALL'", "','.join(gen<str($0) for $0 in self.disc_numbers>)"])]
     ok = shapes == want and all(not e.guards for p_ in positions[:3] for e in p_)
     rep.ob("R-DISCINFO-POS", "DiscInfo.serialize:lines", ok, site=cx.site(f.node),
            msg="" if ok else "lines must be, in this order: str(timestamp).strip(), description.strip(), arch.strip(), then 'ALL' or the "
@@ -962,10 +931,12 @@ def r_checksums_schema(model, rep):
     ok = len(st) == 1 and len(st[0].loops) == 1
     if ok:
         e = st[0]
-        it = ("call", ("attr", ("attr", S, "checksums"), "items"), (), ())
+        it = e.loops[0][1]
+        d = ("attr", S, "checksums")
         el = ("elem", it, e.loops[0][0])
-        ok = e.loops[0][1] == it and e.path == [("const", "checksums"), ("idx", el, 0)] \
-            and e.value == ("binop", "%", ("const", "%s:%s"), ("tuple", (("idx", ("idx", el, 1), 0), ("idx", ("idx", el, 1), 1))))
+        ok = (it == d or (it[0] == "call" and it[1] in (("global", "sorted"), ("global", "list")) and it[2] == (d,))) \
+            and e.path == [("const", "checksums"), el] \
+            and e.value == T.fmt(("idx", ("sub", d, el), 0), ":", ("idx", ("sub", d, el), 1))
     rep.ob("R-CKS-FORMAT", "treeinfo.Checksums.serialize", ok, site=cx.site(f.node),
            msg="" if ok else "every checksum must be written as [checksums]/<path> = '<type>:<value>'")
     return ok
@@ -1203,8 +1174,8 @@ def r_general_prov(model, rep):
     e = one("name")
     if e:
         v = e.value
-        ok = v[0] == "binop" and v[1] == "%" and v[2] == ("const", "%s %s") and v[3][0] == "tuple" \
-            and [T.attr_chain(x) for x in v[3][1]] == [M + ".release.name", M + ".release.version"] and not e.guards
+        ok = v[0] == "fmt" and len(v[1]) == 3 and v[1][1] == ("const", " ") \
+            and [T.attr_chain(v[1][0]), T.attr_chain(v[1][2])] == [M + ".release.name", M + ".release.version"] and not e.guards
         ob("name", ok, "name must be '%%s %%s' %% (release.name, release.version): %s" % T.show(v), e)
     e = one("arch")
     if e:
